@@ -67,6 +67,9 @@ def run_job(job):
         return res
     flags = [f for f in DEFAULT_CHECKS if f not in spec.noflags] + ["--no-" + f[2:] for f in spec.noflags] + list(spec.flags)
     cmd3 = ["cbmc", base + ".b.gb", "--json-ui", "--trace"] + flags
+    if job.get("unwind"):
+        cmd3 += ["--unwind", str(job["unwind"]), "--unwinding-assertions"]
+        res["bounded"] = "unwind %s" % job["unwind"]
     if spec.solver:
         cmd3 += [spec.solver] if isinstance(spec.solver, str) else list(spec.solver)
     cmd3 += ["--object-bits", str(spec.objbits or 10), "--no-malloc-may-fail"]
